@@ -4,9 +4,9 @@
    i -> mid... -> j (None if an edge is missing); [is_min_dist n L i j d]: d is the minimum of wl over all
    walks inside {0..n-1}, None iff there is none; [dist_correct n L D]: that, for every ordered pair i <> j. *)
 From Coq Require Import QArith List Arith ZArith Lia.
-From BCT Require Import Base.Mat Base.ListX Model.Distance
+From BCT Require Import Base.Mat Base.ListX Model.Distance Model.DistanceExt
   Proofs.DistanceBase Proofs.DistanceFloyd Proofs.DistanceBin Proofs.DistanceOther Proofs.DistanceReach Proofs.DistanceWei
-  Proofs.DistanceFull Proofs.DistanceBFS Proofs.DistanceAgree Proofs.DistanceSimple.
+  Proofs.DistanceFull Proofs.DistanceBFS Proofs.DistanceAgree Proofs.DistanceSimple Proofs.DistanceHopsPath Proofs.DistanceExt.
 Import ListNotations.
 Open Scope Q_scope.
 
@@ -95,14 +95,36 @@ Theorem C03_distance_wei_edge_count_path : forall n G D B,
     exists mid, below n mid /\ NoDup (i :: mid ++ [j]) /\ S (length mid) = B i j /\ oeq (wl (Lg G) i mid j) (Some x).
 Proof. exact distance_wei_edge_count_path. Qed.
 
-(* the same for hops of distance_wei_floyd when all lengths are strictly positive (with zero-length connections,
-   'log' transform of weight 1, C03_floyd_hops_min_path gives a minimum-length walk) *)
-Theorem C03_floyd_hops_path : forall n L, positive n L ->
+(* the same for hops of distance_wei_floyd, for EVERY non-negative length matrix — zero-length connections ('log'
+   transform of weight 1) included: along the route Pmat encodes hops[.,j] drops by one per step, so its nodes are
+   pairwise distinct (no appeal to strict positivity; upgraded from the `positive` hypothesis) *)
+Theorem C03_floyd_hops_path : forall n L, nonneg n L ->
   forall i j x, (i < n)%nat -> (j < n)%nat -> i <> j -> spl (floyd n L) i j = Some x ->
     is_min_dist n L i j (Some x) /\
     exists mid, below n mid /\ NoDup (i :: mid ++ [j]) /\ S (length mid) = hops (floyd n L) i j /\
                 oeq (wl L i mid j) (Some x).
-Proof. exact floyd_hops_path. Qed.
+Proof. exact floyd_hops_path_nonneg. Qed.
+
+(* composed with each transform, so that no clause needs a reader's instantiation *)
+Theorem C03_floyd_transforms_hops : forall nlog : Q -> Q,
+  (forall w, 0 < w -> w <= 1 -> 0 <= nlog w) ->
+  forall n A tr,
+  (forall i j, (i < n)%nat -> (j < n)%nat -> 0 <= A i j) ->
+  (tr = TLog -> forall i j, (i < n)%nat -> (j < n)%nat -> A i j <= 1) ->
+  let F := distance_wei_floyd nlog n A tr in
+  forall i j x, (i < n)%nat -> (j < n)%nat -> i <> j -> spl F i j = Some x ->
+    is_min_dist n (lengths nlog tr A) i j (Some x) /\
+    exists mid, below n mid /\ NoDup (i :: mid ++ [j]) /\ S (length mid) = hops F i j /\
+                oeq (wl (lengths nlog tr A) i mid j) (Some x).
+Proof. exact floyd_transforms_hops. Qed.
+
+(* non-vacuity: a zero-length 2-cycle 1 <-> 2 beside two tied routes 0->1->3, 0->2->3: non-negative, NOT strictly positive *)
+Example C03_hops_path_nonvacuous :
+  let L : mat len := of_rows None [[None; Some 1; Some 1; None]; [None; None; Some 0; Some 1];
+                                   [None; Some 0; None; Some 1]; [None; None; None; None]] in
+  nonneg 4 L /\ ~ positive 4 L /\ spl (floyd 4 L) 0%nat 3%nat = Some 2 /\ hops (floyd 4 L) 0%nat 3%nat = 2%nat /\
+  spl (floyd 4 L) 1%nat 2%nat = Some 0.
+Proof. exact hops_path_nonneg_nonvacuous. Qed.
 
 (* ---------- totality: the fuel n+2 of every fuelled loop is sufficient, the models return for EVERY input ---------- *)
 Theorem C03_models_return :
@@ -230,6 +252,95 @@ Theorem C03_rout_efficiency_mean_inverse : forall nlog n A tr, (2 <= n)%nat ->
   (forall i, snd (rout_efficiency nlog n A tr) i i = 0).
 Proof. exact rout_efficiency_mean_inverse. Qed.
 
+(* ---------- charpath, statement by statement, EVERY flag combination, inf and nan entries ---------- *)
+(* [charpath_x] (Model/DistanceExt.v) executes the masking statements on a matrix of nan / +inf / finite entries.
+   The cells that survive are exactly [cp_sel]: on the diagonal only with include_diagonal, never a nan, an inf only with
+   include_infinite; lambda = np.mean of them, efficiency = np.mean of their inverses (1/inf = 0, 1/0 = inf) *)
+Theorem C03_charpath_general : forall n D dg inf,
+  charpath_x n D dg inf =
+  let sel := map (fun c => D (fst c) (snd c))
+                 (filter (fun c => ((dg || negb (Nat.eqb (fst c) (snd c))) && negb (vnan (D (fst c) (snd c))) &&
+                                    (inf || negb (vinf (D (fst c) (snd c)))))%bool) (cells n)) in
+  (vmean sel, vmean (map vrecip sel)).
+Proof. exact charpath_general. Qed.
+
+(* np.mean: nan on nothing, inf as soon as one selected entry is inf, the exact mean otherwise *)
+Theorem C03_charpath_mean_spec : forall l,
+  (l = [] -> vmean l = ENaN) /\
+  (l <> [] -> In VInf l -> vmean l = EInf) /\
+  (l <> [] -> ~ In VInf l -> vmean l = EFin (meanQ (map vq l))).
+Proof. exact vmean_spec. Qed.
+
+(* the flag-filter model [charpath] used by the earlier theorems is charpath_x on nan-free matrices (None = inf) *)
+Theorem C03_charpath_legacy_agrees : forall n (D : mat len) dg inf,
+  charpath n D dg inf = charpath_x n (fun i j => dv (D i j)) dg inf.
+Proof. exact charpath_legacy_agrees. Qed.
+
+(* (False, False), the usual call on a disconnected graph: mean / mean inverse over the ordered pairs of distinct nodes
+   at FINITE distance; nan when there is none *)
+Theorem C03_charpath_finite_pairs : forall n (D : mat len),
+  let fin := filter (fun c => isfin (D (fst c) (snd c))) (offdiag n) in
+  fst (charpath_x n (fun i j => dv (D i j)) false false) =
+    match fin with [] => ENaN | _ => EFin (meanQ (map (fun c => oval (D (fst c) (snd c))) fin)) end /\
+  snd (charpath_x n (fun i j => dv (D i j)) false false) =
+    match fin with
+    | [] => ENaN
+    | _ => if existsb (fun c => oeqb (D (fst c) (snd c)) (Some 0)) fin then EInf
+           else EFin (meanQ (map (fun c => oinv (D (fst c) (snd c))) fin))
+    end.
+Proof. exact charpath_finite_pairs. Qed.
+
+(* the default flags (False, True) with NO hypothesis on D: lambda is the mean over all ordered pairs of distinct nodes,
+   inf as soon as one of them is at infinite distance (C03_charpath_mean is the all-finite case) *)
+Theorem C03_charpath_default_total : forall n (D : mat len), (2 <= n)%nat ->
+  fst (charpath_x n (fun i j => dv (D i j)) false true) =
+    (if forallb (fun c => isfin (D (fst c) (snd c))) (offdiag n)
+     then EFin (meanQ (map (fun c => oval (D (fst c) (snd c))) (offdiag n))) else EInf) /\
+  snd (charpath_x n (fun i j => dv (D i j)) false true) =
+    (if existsb (fun c => oeqb (D (fst c) (snd c)) (Some 0)) (offdiag n) then EInf
+     else EFin (meanQ (map (fun c => oinv (D (fst c) (snd c))) (offdiag n)))).
+Proof. exact charpath_default_total. Qed.
+
+Example C03_charpath_nonvacuous :
+  (* 0 <-> 1 connected, 2 isolated, one nan entry handed in by the caller *)
+  let D := [[VFin 0; VFin 1; VInf]; [VFin 1; VFin 0; VInf]; [VInf; VNaN; VFin 0]] in
+  run_charpath_x D false true = (EInf, EFin (2 # 5)) /\ run_charpath_x D false false = (EFin 1, EFin 1) /\
+  run_charpath_x D true false = (EFin (2 # 5), EInf) /\ run_charpath_x [[VFin 0]] false true = (ENaN, ENaN).
+Proof. vm_compute. auto. Qed.
+
+(* ---------- efficiency.py's OWN copies of the distance loops ---------- *)
+(* [distance_inv] / [distance_inv_wei] (Model/DistanceExt.v) transcribe the nested functions of efficiency_bin /
+   efficiency_wei, which repeat the loops of distance_bin / distance_wei textually: they return (and fail to return)
+   exactly when the distance routine does, and then every entry is the inverse of the proven distance, 0 on the diagonal *)
+Theorem C03_distance_inv_copies :
+  (forall n A, match distance_inv n (tab 0%Z n n (bin A)), distance_bin n A with
+               | Some E, Some D => forall i j, E i j = if Nat.eqb i j then 0 else oinv (olen_of_nat (D i j))
+               | None, None => True
+               | _, _ => False
+               end) /\
+  (forall n G, match distance_inv_wei n G, distance_wei n G with
+               | Some E, Some (D, _) => forall i j, E i j = if Nat.eqb i j then 0 else oinv (D i j)
+               | None, None => True
+               | _, _ => False
+               end).
+Proof. exact (conj distance_inv_spec distance_inv_wei_spec). Qed.
+
+(* efficiency_bin / efficiency_wei as the code computes them (own loop; np.sum over the whole matrix / (n*n-n)): always
+   return, and the value is the mean inverse of the PROVEN distances over the ordered pairs of distinct nodes — and equal
+   to the value of the earlier models that re-used distance_bin / distance_wei.  [ext_eq]: equal as rationals *)
+Theorem C03_efficiency_own_loops :
+  (forall n A, exists e, efficiency_bin_x n A = Some e) /\
+  (forall n W, exists e, efficiency_wei_x n W = Some e) /\
+  (forall n A e, efficiency_bin_x n A = Some e ->
+     exists D, distance_bin n A = Some D /\ dist_correct n (Lbin A) (fun i j => olen_of_nat (D i j)) /\
+       (exists e', efficiency_bin n A = Some e' /\ ext_eq e e') /\
+       ((2 <= n)%nat -> ext_eq e (EFin (meanQ (map (fun c => oinv (olen_of_nat (D (fst c) (snd c)))) (offdiag n)))))) /\
+  (forall n W e, (forall i j, (i < n)%nat -> (j < n)%nat -> 0 <= W i j) -> efficiency_wei_x n W = Some e ->
+     exists D B, distance_wei n (invertQ W) = Some (D, B) /\ dist_correct n (Lg (invertQ W)) D /\
+       (exists e', efficiency_wei n W = Some e' /\ ext_eq e e') /\
+       ((2 <= n)%nat -> ext_eq e (EFin (meanQ (map (fun c => oinv (D (fst c) (snd c))) (offdiag n)))))).
+Proof. exact (conj efficiency_bin_x_total (conj efficiency_wei_x_total (conj efficiency_bin_x_spec efficiency_wei_x_spec))). Qed.
+
 (* non-vacuity: a concrete tie-heavy directed length matrix meets the hypotheses; two equal-length
    alternatives 0->1->3 and 0->2->3 (length 3), unreachable node 4 *)
 Example C03_nonvacuous :
@@ -289,3 +400,11 @@ Print Assumptions C03_charpath_mean_inverse.
 Print Assumptions C03_efficiency_bin_mean_inverse.
 Print Assumptions C03_efficiency_wei_mean_inverse.
 Print Assumptions C03_rout_efficiency_mean_inverse.
+Print Assumptions C03_floyd_transforms_hops.
+Print Assumptions C03_charpath_general.
+Print Assumptions C03_charpath_mean_spec.
+Print Assumptions C03_charpath_legacy_agrees.
+Print Assumptions C03_charpath_finite_pairs.
+Print Assumptions C03_charpath_default_total.
+Print Assumptions C03_distance_inv_copies.
+Print Assumptions C03_efficiency_own_loops.
